@@ -264,7 +264,7 @@ impl Property for C13 {
     }
 
     fn cases(tier: Tier) -> u32 {
-        tier.pick(12_000, 200_000)
+        tier.pick(12_000, 600_000)
     }
 
     fn run(case: &Case, ctx: &mut Ctx) {
